@@ -1,1 +1,139 @@
-import CnlModel.Layered
+import CnlProofs.Scaled
+/-!
+# C04 — integer ↔ integer conversions between `scaled_integer`s preserve the value or truncate toward zero
+
+Notation as in C01.  The model is `scaled/convert_operator.h` (integer → integer, same radix):
+`static_cast<Result>(scale<eS - eD, ρ>(from))` — the source representation is multiplied by
+`ρ^(eS-eD)` (`eS ≥ eD`) or divided by `ρ^(eD-eS)` (`eS < eD`) **in the source's promoted type**, then
+converted to the destination representation type `D` (`D.wrap`: the value itself when it fits `D`).
+
+`scaleTrunc ρ k v` is the exact value of `v · ρ^k` truncated toward zero to an integer.
+`CvtOk S k ρ v` is the restriction: for `k ≥ 0` the power is well-formed and the scaled intermediate
+`v · ρ^k` fits `promote S`; for `k < 0` the divisor `ρ^(-k)` is a value of `promote S`
+(`PowFits` — for a signed `promote S` this is exactly "the instantiation compiles"; for an
+unsigned `promote S` and radix ≠ 2 the real code wraps the power silently when it does not fit,
+and the quotient is then wrong: see `unsigned_power_wraps_counterexample`).
+
+* `convert_exact_or_truncated` — the result is `D.wrap (scaleTrunc ρ (eS-eD) v)` at exponent `eD`.
+* `convert_value_preserved` — `eS ≥ eD` (or `ρ^(eD-eS)` divides `v`) and the value fits `D`: the result
+  denotes exactly the source's value (`den`).
+* `convert_truncates_toward_zero` — `eS < eD`: the result `q` has the sign of `v` (or is zero) and
+  `0 ≤ |v| − |q|·ρ^(eD-eS) < ρ^(eD-eS)`: less than one unit of the destination's last place is
+  lost, toward zero, for both signs; in terms of denoted values `den q ≤ den v < den (q+1)` for
+  `v ≥ 0` and `den (q-1) < den v ≤ den q` for `v ≤ 0`.
+* `convert_same_exponent` — equal exponents: the built-in conversion of the representation.
+
+The floating-point clauses of C04 are in `CnlModel.ScaledFloat` / the driver oracle, not here.
+-/
+namespace Cnl.C04
+open Cnl Cnl.Spec Cnl.Layered Cnl.ScaledP
+
+/-- the conversion computes the scaled value truncated toward zero, converted to `D` -/
+theorem convert_exact_or_truncated (D S : IntTy) (hS : 1 ≤ S.bits) (eD eS : Int) (ρ : Nat) (hρ : 2 ≤ ρ)
+    (v : Int) (hv : S.InRange v) (hok : CvtOk S (eS - eD) ρ v) :
+    Layered.cast (.sc (.int D) eD ρ) (sc S eS ρ v) = .ok (sc D eD ρ (D.wrap (scaleTrunc ρ (eS - eD) v))) :=
+  cast_eval D S hS eD eS ρ hρ v hv hok
+
+/-- … the value itself when it fits the destination representation -/
+theorem convert_fits (D S : IntTy) (hD : 1 ≤ D.bits) (hS : 1 ≤ S.bits) (eD eS : Int) (ρ : Nat) (hρ : 2 ≤ ρ)
+    (v : Int) (hv : S.InRange v) (hok : CvtOk S (eS - eD) ρ v) (hfit : D.InRange (scaleTrunc ρ (eS - eD) v)) :
+    Layered.cast (.sc (.int D) eD ρ) (sc S eS ρ v) = .ok (sc D eD ρ (scaleTrunc ρ (eS - eD) v)) := by
+  rw [cast_eval D S hS eD eS ρ hρ v hv hok, IntTy.wrap_id hD hfit]
+
+/-- widening the resolution (`eS ≥ eD`): result `v · ρ^(eS-eD)` at exponent `eD`, the same value -/
+theorem convert_value_preserved (D S : IntTy) (hD : 1 ≤ D.bits) (hS : 1 ≤ S.bits) (eD eS : Int) (hle : eD ≤ eS)
+    (ρ : Nat) (hρ : 2 ≤ ρ) (v : Int) (hv : S.InRange v)
+    (hw : PowOk S (eS - eD).toNat ρ) (hmid : (promote S).InRange (aligned ρ eS eD v))
+    (hfit : D.InRange (aligned ρ eS eD v)) :
+    Layered.cast (.sc (.int D) eD ρ) (sc S eS ρ v) = .ok (sc D eD ρ (aligned ρ eS eD v))
+    ∧ den ρ (aligned ρ eS eD v) eD = den ρ v eS := by
+  have hk : 0 ≤ eS - eD := by omega
+  have hst : scaleTrunc ρ (eS - eD) v = aligned ρ eS eD v := by simp only [scaleTrunc, hk, ite_true, aligned]
+  refine ⟨?_, den_aligned ρ hρ hle v⟩
+  rw [← hst]
+  apply convert_fits D S hD hS eD eS ρ hρ v hv _ (hst ▸ hfit)
+  unfold CvtOk; simp only [hk, ite_true]; exact ⟨hw, hmid⟩
+
+/-- coarsening the resolution (`eS < eD`): truncation toward zero, for both signs -/
+theorem convert_truncates_toward_zero (D S : IntTy) (hD : 1 ≤ D.bits) (hS : 1 ≤ S.bits) (eD eS : Int) (hlt : eS < eD)
+    (ρ : Nat) (hρ : 2 ≤ ρ) (v : Int) (hv : S.InRange v)
+    (hw : PowFits S (eD - eS).toNat ρ) (hfit : D.InRange (v.tdiv (pw ρ (eD - eS).toNat))) :
+    let p := pw ρ (eD - eS).toNat
+    let q := v.tdiv p
+    Layered.cast (.sc (.int D) eD ρ) (sc S eS ρ v) = .ok (sc D eD ρ q)
+    ∧ (0 ≤ v → 0 ≤ q ∧ q * p ≤ v ∧ v < q * p + p)
+    ∧ (v ≤ 0 → q ≤ 0 ∧ v ≤ q * p ∧ q * p - p < v)
+    ∧ (0 ≤ v → den ρ q eD ≤ den ρ v eS ∧ den ρ v eS < den ρ (q + 1) eD)
+    ∧ (v ≤ 0 → den ρ (q - 1) eD < den ρ v eS ∧ den ρ v eS ≤ den ρ q eD) := by
+  intro p q
+  have hk : ¬ (0 ≤ eS - eD) := by omega
+  have hn : (-(eS - eD)).toNat = (eD - eS).toNat := by congr 1; omega
+  have hst : scaleTrunc ρ (eS - eD) v = q := by simp only [scaleTrunc, hk, ite_false, hn, q, p]
+  have hpos : 0 < p := pw_pos hρ _
+  have htz : (0 ≤ v → 0 ≤ q ∧ q * p ≤ v ∧ v < q * p + p) ∧ (v ≤ 0 → q ≤ 0 ∧ v ≤ q * p ∧ q * p - p < v) :=
+    tdiv_toward_zero v p hpos
+  have hcast : Layered.cast (.sc (.int D) eD ρ) (sc S eS ρ v) = .ok (sc D eD ρ q) := by
+    rw [← hst]
+    apply convert_fits D S hD hS eD eS ρ hρ v hv _ (hst ▸ hfit)
+    unfold CvtOk; simp only [hk, ite_false, hn]; exact hw
+  -- a destination representation `x` denotes `x · p` source units
+  have hden : ∀ x : Int, den ρ x eD = den ρ (x * p) eS := fun x => (den_aligned ρ hρ (Int.le_of_lt hlt) x).symm
+  refine ⟨hcast, htz.1, htz.2, fun h0 => ?_, fun h0 => ?_⟩
+  · have := htz.1 h0
+    rw [hden q, hden (q + 1), den_le_iff ρ hρ, den_lt_iff ρ hρ, Int.add_mul]
+    omega
+  · have := htz.2 h0
+    rw [hden q, hden (q - 1), den_le_iff ρ hρ, den_lt_iff ρ hρ, Int.sub_mul]
+    omega
+
+/-- coarsening is exact when no non-zero digit is dropped -/
+theorem convert_exact_when_divisible (D S : IntTy) (hD : 1 ≤ D.bits) (hS : 1 ≤ S.bits) (eD eS : Int) (hlt : eS < eD)
+    (ρ : Nat) (hρ : 2 ≤ ρ) (v : Int) (hv : S.InRange v)
+    (hw : PowFits S (eD - eS).toNat ρ) (q : Int) (hdiv : v = q * pw ρ (eD - eS).toNat) (hfit : D.InRange q) :
+    Layered.cast (.sc (.int D) eD ρ) (sc S eS ρ v) = .ok (sc D eD ρ q) ∧ den ρ q eD = den ρ v eS := by
+  have hpos : 0 < pw ρ (eD - eS).toNat := pw_pos hρ _
+  have hq : v.tdiv (pw ρ (eD - eS).toNat) = q := by
+    rw [hdiv]; exact Int.mul_tdiv_cancel q (by omega)
+  have h := convert_truncates_toward_zero D S hD hS eD eS hlt ρ hρ v hv hw (hq ▸ hfit)
+  simp only [hq] at h
+  refine ⟨h.1, ?_⟩
+  rw [hdiv]; exact (den_aligned ρ hρ (Int.le_of_lt hlt) q).symm
+
+/-- equal exponents: the built-in conversion of the representation, no restriction -/
+theorem convert_same_exponent (D S : IntTy) (e : Int) (ρ : Nat) (v : Int) :
+    Layered.cast (.sc (.int D) e ρ) (sc S e ρ v) = .ok (sc D e ρ (D.wrap v)) := by
+  rw [cast_sc_sc, convert_eq]; simp
+
+/-- `scaleTrunc` is what its name says: the exact scaled value `v · ρ^k`, truncated toward zero -/
+theorem scaleTrunc_spec (ρ : Nat) (hρ : 2 ≤ ρ) (k v : Int) :
+    (0 ≤ k → scaleTrunc ρ k v = v * pw ρ k.toNat) ∧
+    (k < 0 → IsRounded .truncate v (pw ρ (-k).toNat) (scaleTrunc ρ k v)) := by
+  constructor
+  · intro h; simp only [scaleTrunc, h, ite_true]
+  · intro h
+    have : ¬ 0 ≤ k := by omega
+    simp only [scaleTrunc, this, ite_false]
+    have hpos := pw_pos hρ (-k).toNat
+    exact roundDiv_truncate v _ (by omega)
+
+/-- **Counterexample outside the restriction** (genuine defect of the code, which the model
+follows): `power_value<uint32_t, 10, 10>` wraps to `10^10 mod 2^32 = 1410065408`, so converting
+`scaled_integer<uint32_t, power<-10, 10>>` with representation `2·10^9` (the value `0.2`) to
+`power<0, 10>` yields `1`, not `0`.  `PowFits` fails there. -/
+theorem unsigned_power_wraps_counterexample :
+    Layered.cast (.sc (.int u32) 0 10) (sc u32 (-10) 10 2000000000) = .ok (sc u32 0 10 1)
+    ∧ scaleTrunc 10 (-10 - 0) 2000000000 = 0 ∧ ¬ PowFits u32 10 10 ∧ PowOk u32 10 10 := by decide +kernel
+
+/-! Non-vacuity -/
+
+-- narrowing conversion of a negative value: -7·2^-2 = -1.75 → -1 (toward zero), into 8 bits
+example : Layered.cast (.sc (.int i8) 0 2) (sc i32 (-2) 2 (-7)) = .ok (sc i8 0 2 (-1)) := by decide
+example : PowFits i32 (0 - (-2) : Int).toNat 2 ∧ i8.InRange ((-7 : Int).tdiv (pw 2 (0 - (-2) : Int).toNat)) := by
+  decide +kernel
+-- widening, radix 10: 12·10^1 = 120 → 12000·10^-2
+example : Layered.cast (.sc (.int i64) (-2) 10) (sc i16 1 10 12) = .ok (sc i64 (-2) 10 12000) := by decide +kernel
+example : CvtOk i16 (1 - (-2)) 10 12 := by decide
+-- the value does not fit the destination: reduced modulo 2^8
+example : Layered.cast (.sc (.int u8) 0 2) (sc i32 0 2 300) = .ok (sc u8 0 2 44) := by decide
+
+end Cnl.C04
